@@ -121,7 +121,7 @@ def render_verilog(nl, lib, seed, simple=False):
                 names.append(nm); decls.append((nm, None)); k += 1
             else:
                 bn = f'{base}bus{b}'; b += 1
-                lo = st.pick(3)
+                lo = [0, 1, 2, 7, 8, 9, 10, 14, 98][st.pick(9)]      # bounds that cross 9/10 and 99/100 (numeric vs textual order)
                 desc = st.pick(2)
                 idx = list(range(lo, lo + w))
                 if desc: idx.reverse()
@@ -157,7 +157,7 @@ def render_verilog(nl, lib, seed, simple=False):
             pending_bus.append(src)
             if len(pending_bus) >= 2 + st.pick(2):
                 bn = f'wb{wb}'; wb += 1
-                lo = st.pick(2); idx = list(range(lo, lo + len(pending_bus)))
+                lo = [0, 1, 8, 9, 99][st.pick(5)]; idx = list(range(lo, lo + len(pending_bus)))
                 if st.pick(2): idx.reverse()
                 wire_decl.append((bn, (idx[0], idx[-1])))
                 for s_, i in zip(pending_bus, idx): net[s_] = f'{bn}[{i}]'
